@@ -21,6 +21,21 @@
 // peer.Peer, one header MD and one trailer MD variable handed to every call of
 // every ordered pair (and triples) of calls over the transports and kinds,
 // versus fresh targets; after each call the targets describe that call.
+//
+// Plus WHO SUPPLIES the call options (supply.go): the caller itself, a client
+// interceptor installed with grpchan.InterceptClientConn that adds
+// grpc.PerRPCCredentials / grpc.Peer to the options it passes on, or both; one
+// or two wrappers deep; crossed with every transport, kind, credential and
+// caller-metadata value. The oracle is the same: the metadata of the credential
+// in effect reaches the handler, credentials that require security refuse the
+// call on an insecure transport before any request, every peer target anybody
+// passed is filled.
+//
+// Plus the base-URL SCHEME alphabet (supply.go): {http, https, HTTP, Https, h2c,
+// http+unix, ws, ""} as a url.URL literal, each with a RoundTripper that accepts
+// it (a custom one, a stock http.Transport with the scheme registered, one that
+// forwards to the loopback servers). Only https may carry credentials that
+// require transport security.
 package main
 
 import (
@@ -59,7 +74,7 @@ import (
 // ---- case ------------------------------------------------------------------
 
 type caseT struct {
-	Transport string `json:"transport"`      // inproc | http-rt | http-loopback | https | https-h2 | (grpc-go reference, internal)
+	Transport string `json:"transport"`      // inproc | http-rt | http-loopback | https | https-h2 | scheme-rt | scheme-registered | scheme-loopback | (grpc-go reference, internal)
 	Op        string `json:"op"`             // unary | bidi | server-stream | client-stream
 	Host      string `json:"host,omitempty"` // how the base URL names the server: v4 | v4-noport | v6 | v6-long | v6-noport (HTTP transports only)
 	Creds     string `json:"creds"`          // none | nil | empty | one | overlap | both | error
@@ -76,6 +91,13 @@ type caseT struct {
 	// trailers {tlr-<tag>:<tag>, call:<tag>}, so that every call of a sequence
 	// has response metadata of its own
 	Tag string `json:"tag,omitempty"`
+	// Scheme: the scheme of the base URL as written in a url.URL literal, for the
+	// transports scheme-rt | scheme-registered | scheme-loopback (supply.go)
+	Scheme string `json:"scheme,omitempty"`
+	// Via, when set, says who supplies the credentials and the peer target: the
+	// caller and/or client interceptors wrapped around the channel (supply.go).
+	// PeerOpt and HdrOpt are not used then.
+	Via *viaT `json:"via,omitempty"`
 }
 
 // mergeT: the logical metadata is always caller {a:[1,2], shared:[caller-v(,caller-w)]}
@@ -202,6 +224,20 @@ func (c caseT) credMD() (map[string]string, error) {
 	return credMD(c.Creds)
 }
 
+// credMDFor: what the credential supplied by who (caller | L1 | L2) hands out:
+// the case's map, the values marked with the supplier when it is an interceptor.
+func (c caseT) credMDFor(who string) (map[string]string, error) {
+	m, err := c.credMD()
+	if who == "" || who == "caller" || len(m) == 0 {
+		return m, err
+	}
+	out := map[string]string{}
+	for k, v := range m {
+		out[k] = v + "@" + who
+	}
+	return out, err
+}
+
 // callerLogical: the caller's metadata of the case, keys lower-cased.
 func (c caseT) callerLogical() metadata.MD {
 	if c.Merge != nil {
@@ -237,6 +273,7 @@ func callerMD(kind string) metadata.MD {
 
 type cred struct {
 	c        caseT
+	who      string // caller | L1 | L2
 	require  bool
 	nRequire int64
 	nGet     int64
@@ -246,7 +283,7 @@ type cred struct {
 func (c *cred) GetRequestMetadata(ctx context.Context, uri ...string) (map[string]string, error) {
 	atomic.AddInt64(&c.nGet, 1)
 	c.uri.Store(strings.Join(uri, ","))
-	return c.c.credMD()
+	return c.c.credMDFor(c.who)
 }
 func (c *cred) RequireTransportSecurity() bool {
 	atomic.AddInt64(&c.nRequire, 1)
@@ -388,10 +425,21 @@ func service(s *seen, tag string) *grpc.ServiceDesc {
 type countRT struct {
 	inner http.RoundTripper
 	n     int64
+	mu    sync.Mutex
+	sent  map[string][]string // of the last request: its values under the metadata keys of the grammar
+	sch   string              // of the last request: the URL scheme the RoundTripper was handed
 }
 
 func (c *countRT) RoundTrip(r *http.Request) (*http.Response, error) {
 	atomic.AddInt64(&c.n, 1)
+	c.mu.Lock()
+	c.sent, c.sch = map[string][]string{}, r.URL.Scheme
+	for _, k := range mdUniverse {
+		if vs := r.Header.Values(k); len(vs) > 0 {
+			c.sent[k] = append([]string(nil), vs...)
+		}
+	}
+	c.mu.Unlock()
 	return c.inner.RoundTrip(r)
 }
 
@@ -470,7 +518,7 @@ func (o *obsT) setWant(u *url.URL) {
 	o.wantHost, o.wantPort = u.Hostname(), u.Port()
 	o.portGiven = o.wantPort != ""
 	if !o.portGiven {
-		o.wantPort = map[string]string{"http": "80", "https": "443"}[u.Scheme]
+		o.wantPort = map[string]string{"http": "80", "https": "443"}[strings.ToLower(u.Scheme)]
 	}
 }
 
@@ -504,6 +552,13 @@ type obsT struct {
 	// Targets: what every call-option target set handed to the call holds once
 	// the call is over (reuse.go); empty for the single-call grammar
 	Targets []targetObs `json:"targets,omitempty"`
+	// Sent: what the RoundTripper was handed with the last request under the
+	// metadata keys of the grammar, and the URL scheme of that request
+	Sent       map[string][]string `json:"sent_metadata,omitempty"`
+	SentScheme string              `json:"sent_url_scheme,omitempty"`
+	// Suppliers: per supplier of call options (supply.go) what its credential
+	// and its peer target saw; empty without Via
+	Suppliers []supObs `json:"suppliers,omitempty"`
 }
 
 func opDesc(op string) (string, *grpc.StreamDesc) {
@@ -538,6 +593,11 @@ func runCtx(e *env, c caseT, base context.Context, tgs []*targetSet) (o obsT) {
 	var cc grpc.ClientConnInterface
 	var crt *countRT
 	var cleanup func()
+	vs, err := newViaState(c)
+	if err != nil {
+		o.Panic = "checker: " + err.Error()
+		return
+	}
 	switch c.Transport {
 	case "inproc":
 		ch := &inprocgrpc.Channel{}
@@ -593,13 +653,29 @@ func runCtx(e *env, c caseT, base context.Context, tgs []*targetSet) (o obsT) {
 		}
 		o.setWant(u)
 		cc = &httpgrpc.Channel{Transport: crt, BaseURL: u}
+	case "scheme-rt", "scheme-registered", "scheme-loopback":
+		srv := httpgrpc.NewServer()
+		srv.RegisterService(desc, common.Impl{})
+		tr, u, cl, err := e.schemeTransport(c, front(srv))
+		if err != nil {
+			o.Panic = "checker: " + err.Error()
+			return
+		}
+		cleanup = cl
+		crt = &countRT{inner: tr}
+		o.setWant(u)
+		cc = &httpgrpc.Channel{Transport: crt, BaseURL: u}
 	case "grpc-go":
 		lis := bufconn.Listen(1 << 16)
 		gs := grpc.NewServer()
 		gs.RegisterService(desc, common.Impl{})
 		go gs.Serve(lis)
-		conn, err := grpc.Dial("bufnet", grpc.WithContextDialer(func(ctx context.Context, _ string) (net.Conn, error) { return lis.DialContext(ctx) }),
-			grpc.WithTransportCredentials(insecure.NewCredentials()))
+		// the reference for interceptor-supplied options: the same interceptor
+		// functions installed the grpc-go way (dial options), nothing of the
+		// library under test in between
+		dopts := append([]grpc.DialOption{grpc.WithContextDialer(func(ctx context.Context, _ string) (net.Conn, error) { return lis.DialContext(ctx) }),
+			grpc.WithTransportCredentials(insecure.NewCredentials())}, vs.dialOptions(c.Op)...)
+		conn, err := grpc.Dial("bufnet", dopts...)
 		if err != nil {
 			o.err = err
 			o.Err = err.Error()
@@ -614,6 +690,9 @@ func runCtx(e *env, c caseT, base context.Context, tgs []*targetSet) (o obsT) {
 	if cleanup != nil {
 		defer cleanup()
 	}
+	if c.Via != nil && c.Transport != "grpc-go" {
+		cc = vs.wrap(cc, c.Op)
+	}
 
 	if base == nil {
 		base = context.Background()
@@ -627,17 +706,21 @@ func runCtx(e *env, c caseT, base context.Context, tgs []*targetSet) (o obsT) {
 	defer cancel()
 	var opts []grpc.CallOption
 	var cr *cred
-	if c.Creds != "none" {
-		cr = &cred{c: c, require: c.Require}
-		opts = append(opts, grpc.PerRPCCredentials(cr))
-	}
 	var pr peer.Peer
-	if c.PeerOpt && tgs == nil {
-		opts = append(opts, grpc.Peer(&pr))
-	}
 	var hdr metadata.MD
-	if c.HdrOpt && tgs == nil {
-		opts = append(opts, grpc.Header(&hdr))
+	if c.Via != nil {
+		opts = vs.callerOpts()
+	} else {
+		if c.Creds != "none" {
+			cr = &cred{c: c, who: "caller", require: c.Require}
+			opts = append(opts, grpc.PerRPCCredentials(cr))
+		}
+		if c.PeerOpt && tgs == nil {
+			opts = append(opts, grpc.Peer(&pr))
+		}
+		if c.HdrOpt && tgs == nil {
+			opts = append(opts, grpc.Header(&hdr))
+		}
 	}
 	for _, t := range tgs {
 		opts = append(opts, grpc.Peer(t.pr), grpc.Header(t.hdr), grpc.Trailer(t.tlr))
@@ -694,6 +777,9 @@ func runCtx(e *env, c caseT, base context.Context, tgs []*targetSet) (o obsT) {
 	}
 	if crt != nil {
 		o.Requests = atomic.LoadInt64(&crt.n)
+		crt.mu.Lock()
+		o.Sent, o.SentScheme = crt.sent, crt.sch
+		crt.mu.Unlock()
 	}
 	s.mu.Lock()
 	o.HandlerRan, o.HandlerMD, o.HPeerOK, o.HPeerAddr, o.HPeerAuth, o.hPeerNil = s.n, s.md, s.peerOK, s.addr, s.auth, s.addrNil
@@ -701,13 +787,24 @@ func runCtx(e *env, c caseT, base context.Context, tgs []*targetSet) (o obsT) {
 	e.mu.Lock()
 	o.Remote, o.serverConn = e.lastRemote, e.lastConn
 	e.mu.Unlock()
-	if c.PeerOpt && tgs == nil {
+	if c.PeerOpt && tgs == nil && c.Via == nil {
 		if pr.Addr != nil {
 			o.CPeerSet = true
 			o.CPeerAddr = pr.Addr.String()
 		}
 		o.CPeerAuth = authKind(pr.AuthInfo)
 		o.cPeerConn = authConnID(pr.AuthInfo)
+	}
+	if c.Via != nil {
+		o.Suppliers = vs.observe()
+		for _, so := range o.Suppliers {
+			o.CredCalls[0] += so.CredCalls[0]
+			o.CredCalls[1] += so.CredCalls[1]
+			o.CPeerSet = o.CPeerSet || so.PeerSet
+			if so.CredURI != "" {
+				o.CredURI = so.CredURI
+			}
+		}
 	}
 	for _, t := range tgs {
 		o.Targets = append(o.Targets, t.observe())
@@ -725,6 +822,7 @@ type finding struct {
 	clause string // the oracle clause that was applicable
 	fail   string // "" = held, else a short stable description of how it failed
 	detail string
+	about  string // Via cases: whose peer target the clause is about (caller | L1 | L2), else ""
 }
 
 func isHTTP(t string) bool { return t == "http-rt" || t == "http-loopback" }
@@ -736,8 +834,8 @@ func wantMD(c caseT) map[string][]string {
 	for k, vs := range c.callerLogical() {
 		w[k] = append(w[k], vs...)
 	}
-	if c.Creds != "none" {
-		m, _ := c.credMD()
+	if c.hasCreds() {
+		m, _ := c.credMDFor(c.credWinner())
 		for k, v := range m {
 			// metadata keys are case-insensitive; the handler sees them lower-cased
 			k = strings.ToLower(k)
@@ -804,9 +902,9 @@ func check(c caseT, o obsT) []finding {
 
 func check0(c caseT, o obsT) (fs []finding) {
 	if o.Panic != "" {
-		return []finding{{"no-panic", "panic", o.Panic}}
+		return []finding{{clause: "no-panic", fail: "panic", detail: o.Panic}}
 	}
-	insecure := isHTTP(c.Transport) || c.Transport == "grpc-go"
+	insecure := c.insecureURL()
 	if c.Reject != "" {
 		f := finding{clause: "rejected-call-fails"}
 		if o.err == nil || o.HandlerRan > 0 {
@@ -820,19 +918,26 @@ func check0(c caseT, o obsT) (fs []finding) {
 		return fs
 	}
 	switch {
-	case c.Creds != "none" && c.Require && insecure:
+	case c.hasCreds() && c.Require && insecure:
 		// "the call fails before any request is issued"
 		f := finding{clause: "secure-creds-refused-on-insecure-transport"}
 		switch {
 		case o.Requests > 0 || o.HandlerRan > 0:
 			f.fail = "request-issued"
-			f.detail = fmt.Sprintf("credentials require transport security, base URL is http, yet %d HTTP request(s) left the client (handler ran %d time(s)); err=%v", o.Requests, o.HandlerRan, o.err)
+			what := "base URL is http"
+			if c.Scheme != "" || isSchemeTransport(c.Transport) {
+				what = fmt.Sprintf("base URL %s has scheme %q, which is not https", o.BaseURL, c.Scheme)
+			}
+			if c.Via != nil {
+				what += "; call options supplied by " + c.Via.String()
+			}
+			f.detail = fmt.Sprintf("credentials require transport security, %s, yet %d HTTP request(s) left the client (credential metadata handed to the RoundTripper: %v; handler ran %d time(s)); err=%v", what, o.Requests, credSent(o), o.HandlerRan, o.err)
 		case o.err == nil:
 			f.fail = "call-succeeded"
 			f.detail = "no request issued but the call reported success"
 		}
 		return append(fs, f)
-	case c.Creds == "error":
+	case c.hasCreds() && c.Creds == "error":
 		f := finding{clause: "credential-error-fails-call"}
 		switch {
 		case o.HandlerRan > 0:
@@ -843,9 +948,14 @@ func check0(c caseT, o obsT) (fs []finding) {
 			f.detail = "the credential returned an error, yet the call reported success"
 		}
 		return append(fs, f)
-	case c.Creds != "none" && c.Require && c.Transport == "inproc" && o.err != nil && o.HandlerRan == 0:
+	case c.hasCreds() && c.Require && c.Transport == "inproc" && o.err != nil && o.HandlerRan == 0:
 		// in-process counts as secure in the library; refusing instead would not
 		// contradict the statement. Nothing to check.
+		return nil
+	case c.hasCreds() && c.Require && c.schemeClass() == "https-other-case" && o.err != nil && o.HandlerRan == 0 && o.Requests == 0:
+		// "Https": not literally https (so refusing is what the statement says),
+		// but URL schemes are case-insensitive and net/http sends the request over
+		// TLS (so carrying is not a leak). Both conform. Nothing to check.
 		return nil
 	}
 	// the call has to work
@@ -870,6 +980,9 @@ func check0(c caseT, o obsT) (fs []finding) {
 			if !containsAll(o.HandlerMD[k], want[k]) {
 				f.fail = "key=" + k
 				f.detail = fmt.Sprintf("handler saw %q=%q, needs all of %q (caller metadata %v, credential metadata kind %q)", k, o.HandlerMD[k], want[k], callerMD(c.CallerMD), c.Creds)
+				if c.Via != nil {
+					f.detail += fmt.Sprintf("; call options supplied by %s: the credential in effect is the one of %s (the last grpc.PerRPCCredentials option in the list the channel is given, as in grpc-go)", c.Via, c.credWinner())
+				}
 				if c.Merge != nil {
 					// which values are missing is left out on purpose: when two spellings
 					// of one key collide in a map, the survivor depends on Go's map
@@ -892,11 +1005,11 @@ func check0(c caseT, o obsT) (fs []finding) {
 		f.fail, f.detail = "absent", "peer.FromContext in the handler found nothing"
 	case o.hPeerNil || o.HPeerAddr == "":
 		f.fail, f.detail = "no-address", "handler's peer has no address"
-	case (isHTTP(c.Transport) || isTLS(c.Transport)) && o.HPeerAddr != o.Remote:
+	case c.overHTTP() && o.HPeerAddr != o.Remote:
 		f.fail, f.detail = "address-mismatch", fmt.Sprintf("handler's peer address %q, the HTTP server saw the request from %q", o.HPeerAddr, o.Remote)
 	}
 	fs = append(fs, f)
-	if isTLS(c.Transport) {
+	if c.connTLS() {
 		f = finding{clause: "handler-peer-tls-info"}
 		if o.HPeerAuth != "tls" {
 			f.fail, f.detail = "no-tls-authinfo", fmt.Sprintf("connection uses TLS but the handler's peer AuthInfo is %q", o.HPeerAuth)
@@ -910,6 +1023,22 @@ func check0(c caseT, o obsT) (fs []finding) {
 
 // peerOptFindings: what the grpc.Peer target has to hold once the call is over.
 func peerOptFindings(c caseT, o obsT, suffix string) (fs []finding) {
+	if c.Via != nil {
+		// every peer target anybody passed has to be filled
+		for _, so := range o.Suppliers {
+			if !so.Peer {
+				continue
+			}
+			for _, f := range peerTargetFindings(c, o, so.PeerSet, so.PeerAddr, so.PeerAuth, so.conn, suffix) {
+				f.about = so.Who
+				if f.fail != "" {
+					f.detail = fmt.Sprintf("grpc.Peer target passed by %s (call options supplied by %s): %s", so.Who, c.Via, f.detail)
+				}
+				fs = append(fs, f)
+			}
+		}
+		return fs
+	}
 	if !c.PeerOpt {
 		return nil
 	}
@@ -944,7 +1073,7 @@ func peerTargetFindings(c caseT, o obsT, set bool, addr, auth, conn, suffix stri
 			}
 		}
 		fs = append(fs, f)
-		if isTLS(c.Transport) {
+		if c.connTLS() {
 			f = finding{clause: "client-peer-tls-info" + suffix}
 			if conn != "" && o.serverConn != "" {
 				connCompared++
@@ -958,7 +1087,7 @@ func peerTargetFindings(c caseT, o obsT, set bool, addr, auth, conn, suffix stri
 			}
 			fs = append(fs, f)
 		}
-		if isHTTP(c.Transport) || c.Transport == "grpc-go" {
+		if c.connClear() {
 			// "TLS authentication info whenever the connection uses TLS": a
 			// cleartext connection must not be reported as TLS-authenticated
 			f = finding{clause: "client-peer-no-tls-info-on-cleartext" + suffix}
@@ -1444,7 +1573,11 @@ func main() {
 				v = "FAILED " + f.fail + ": " + f.detail
 				bad = true
 			}
-			fmt.Printf("  clause %s: %s\n", f.clause, v)
+			about := ""
+			if f.about != "" {
+				about = " (peer target passed by " + f.about + ")"
+			}
+			fmt.Printf("  clause %s%s: %s\n", f.clause, about, v)
 		}
 		if bad {
 			fmt.Printf("VIOLATION property=C13 replay=%s\n", p)
@@ -1465,8 +1598,27 @@ func main() {
 		fmt.Fprintln(os.Stderr, "INCONCLUSIVE: oracle calibration:", err)
 		os.Exit(2)
 	}
+	calibratedSupply, err := calibrateSupply()
+	if err != nil {
+		fmt.Fprintln(os.Stderr, "INCONCLUSIVE: oracle calibration:", err)
+		os.Exit(2)
+	}
 	connCompared = 0
 	refRuns := 0
+	if rep.Tier == "thorough" {
+		// interceptor-supplied options against grpc-go: the same interceptor
+		// functions as dial options of a grpc.ClientConn
+		for _, c := range viaCases("thorough", true) {
+			o := guarded(e, c)
+			refRuns++
+			for _, f := range check(c, o) {
+				if f.fail != "" {
+					fmt.Fprintf(os.Stderr, "INCONCLUSIVE: the oracle rejects grpc-go's own behaviour on %+v (via %v): %s %s: %s\n", c, c.Via, f.clause, f.fail, f.detail)
+					os.Exit(2)
+				}
+			}
+		}
+	}
 	if rep.Tier == "thorough" {
 		for _, c := range cases("thorough") {
 			if c.Transport != "inproc" || c.Reject != "" {
@@ -1558,6 +1710,78 @@ func main() {
 	}
 
 	single.report(rep, "C13|", " for every host spelling / credential / caller-metadata / option combination the clause applies to")
+
+	// who supplies the call options (supply.go)
+	viaG := newGrouper(viaDimNames) // scope: the clause
+	nVia, viaReached, viaShapesSeen := 0, map[string]bool{}, map[string]bool{}
+	for _, c := range viaCases(rep.Tier, false) {
+		o := guarded(e, c)
+		evals++
+		nVia++
+		viaShapesSeen[fmt.Sprintf("%v|%v", c.Creds != "none", c.Via)] = true
+		reached := false
+		for _, so := range o.Suppliers {
+			if so.Who != "caller" && (so.CredCalls[0]+so.CredCalls[1] > 0 || so.PeerSet) {
+				reached = true
+			}
+		}
+		k := fmt.Sprintf("%+v via %v", c, c.Via)
+		if reached {
+			viaReached[k] = true
+		}
+		if o.CredCalls[0]+o.CredCalls[1] > 0 || o.CPeerSet || isTLS(c.Transport) {
+			distinct[k] = true
+		}
+		for _, f := range check(c, o) {
+			clauseCount[f.clause]++
+			viaG.add("via|"+f.clause, viaDims(c, f), f, c)
+		}
+		sk := "via|" + c.Transport + "|" + opKind(c.Op)
+		if !sampled[sk] && c.Op == "bidi" && c.Creds == "both" && c.CallerMD == "some" && len(c.Via.Layers) == 2 && c.Via.Caller == "all" && c.Via.Layers[0].Adds == "creds" && c.Via.Layers[1].Adds == "creds+peer" {
+			sampled[sk] = true
+			samples = append(samples, map[string]interface{}{"case": c, "observed": o})
+		}
+	}
+	viaG.report(rep, "C13|", " for every transport / kind / credential / caller metadata / supplier configuration the clause applies to")
+
+	// the base URL's scheme (supply.go)
+	schemeG := newGrouper(schemeDimNames) // scope: the clause
+	nScheme, schemeDecided, schemeSeen := 0, map[string]bool{}, map[string]map[string]bool{}
+	for _, c := range schemeCases(rep.Tier) {
+		o := guarded(e, c)
+		evals++
+		nScheme++
+		k := fmt.Sprintf("%+v via %v", c, c.Via)
+		if o.CredCalls[0] > 0 {
+			schemeDecided[k] = true
+			if o.Requests > 0 {
+				if schemeSeen[showScheme(c.Scheme)] == nil {
+					schemeSeen[showScheme(c.Scheme)] = map[string]bool{}
+				}
+				schemeSeen[showScheme(c.Scheme)][showScheme(o.SentScheme)] = true
+			}
+		}
+		if o.CredCalls[0]+o.CredCalls[1] > 0 || o.CPeerSet || c.connTLS() {
+			distinct[k] = true
+		}
+		for _, f := range check(c, o) {
+			clauseCount[f.clause]++
+			schemeG.add("scheme|"+f.clause, schemeDims(c), f, c)
+		}
+		sk := "scheme|" + c.Transport + "|" + c.Scheme
+		if !sampled[sk] && c.Transport == "scheme-rt" && c.Op == "bidi" && c.Creds == "one" && c.Require && c.PeerOpt && c.Host == "v4" {
+			sampled[sk] = true
+			samples = append(samples, map[string]interface{}{"case": c, "observed": o})
+		}
+	}
+	schemeG.report(rep, "C13|", " for every scheme / transport / kind / host / credential / caller metadata / option combination the clause applies to")
+	schemeAsSent := map[string][]string{}
+	for sch, m := range schemeSeen {
+		for v := range m {
+			schemeAsSent[sch] = append(schemeAsSent[sch], v)
+		}
+		sort.Strings(schemeAsSent[sch])
+	}
 
 	// sequences of calls sharing the caller's context
 	nSeq, nSeqCalls, nKeyCaseSeq := 0, 0, 0
@@ -1653,6 +1877,8 @@ func main() {
 			"Plus, for every caller part of the key-case grammar (27) x every ordered pair of credential key spellings (9) x {in-process, http, https}: a unary call then a bidi stream on ONE caller context, with the same exact-metadata and caller-MD-unchanged clauses. " +
 			"Plus call-option TARGETS reused across calls: the caller keeps ONE peer.Peer, ONE header MD and ONE trailer MD variable and passes them (grpc.Peer, grpc.Header, grpc.Trailer) to every call of a sequence. Steps: {in-process, http (recorder), https" + map[bool]string{true: ", http loopback, https with HTTP/2", false: ""}[rep.Tier == "thorough"] + "} x {unary, bidi" + map[bool]string{true: ", server-stream, client-stream", false: ""}[rep.Tier == "thorough"] + "} x {no credentials, credentials with metadata} plus, per HTTP transport and kind, a rejected call (unknown method: the server answers 404, no handler runs); EVERY ordered pair of steps, and every triple over {in-process, http, https" + map[bool]string{true: ", https with HTTP/2", false: ""}[rep.Tier == "thorough"] + "} x {unary, bidi} (credentials absent in the triples: the new dimension is swept around that base case there, it is crossed with credentials in the pairs). Every sequence is run in three modes: fresh zero targets for every call (control), one reused target set, and the reused set plus a fresh set passed to the same call. The handler of the i-th call sets headers {hdr:v, hdr-i:i, call:i} and trailers {tlr-i:i, call:i}. After each call every target set has to describe THAT call: address as for a single call; TLS info when that call's connection is TLS; no TLS info when it is cleartext; on the keys a handler of the sequence can set, exactly that call's headers and trailers; and (reused sets) address and auth info (kind; for TLS also version, cipher suite, negotiated protocol, SNI, number of peer certificates) equal to what the zero target of the same call of the control run got. " +
 			"Verdicts do not depend on Go's map iteration order: when two spellings of one key collide in a map either the caller's or the credential's values survive, and both outcomes violate the inclusion (and the exact) clause; the oracle calibration feeds both outcomes (and the complete one) to the clause for every shape before the run; each case is run once; the text of a report leaves out the observed values for these cases (--replay prints them). " +
+			"Plus WHO SUPPLIES the call options: what the caller passes {nothing, the credentials and a peer target} x 1 or 2 grpchan.InterceptClientConn wrappers around the channel, each installed for {the kind of the call only (the other interceptor nil), both kinds, the other kind only (the call passes through it)} (two wrappers: both kinds, plus the combinations with one wrapper of the other kind) and each adding {nothing, grpc.PerRPCCredentials, grpc.Peer, both} to the options it passes to the invoker/streamer" + map[bool]string{true: ", after or in front of the options it was given", false: " (appended)"}[rep.Tier == "thorough"] + "; without the configurations in which nobody passes anything, or nobody passes the credentials of a case that has some. CROSSED with every transport x every op x every credential {absent, {require security or not} x {nil, empty, one, overlap, both, error}} x caller metadata {absent, present}; host spelling IPv4:port and no header option (crossed with the rest in the main product). Every supplier has its own credential object (an interceptor's marks its values @L1/@L2) and its own peer.Peer. Same oracle as for single calls: the metadata of the credential in effect (the last grpc.PerRPCCredentials of the option list the channel is given) reaches the handler merged with the caller's; credentials requiring security refuse the call on http before any request (counting RoundTripper); every peer target anybody passed is filled (address; TLS info on TLS, none on cleartext). " +
+			"Plus the base URL's SCHEME: {http, https, HTTP, Https, h2c, http+unix, ws, empty} as a url.URL literal x RoundTripper accepting it {custom RoundTripper serving in memory, stock http.Transport with the scheme registered by RegisterProtocol, RoundTripper forwarding https requests to the TLS loopback server and all others in the clear to the plain one} x host {IPv4:port, IPv4 without port} x every op x every credential x caller metadata x peer option; plus the alphabet swept around interceptor-supplied credentials (custom RoundTripper, one wrapper adding credentials + peer, caller passing nothing / everything, require or not, every op). Oracle: scheme https carries everything; every scheme that is not https in any spelling (HTTP and the empty one included) refuses credentials requiring security with zero requests handed to the RoundTripper and carries all other calls; Https (https in another case) may refuse (the statement read literally, what the library does) or carry (RFC 3986: schemes are case-insensitive, net/http speaks TLS for it). Peer clauses as everywhere; the in-memory RoundTrippers have no TLS whatever the URL says, so no TLS info may be reported there. " +
 			"A case is non-trivial when the credential object was actually consulted (its RequireTransportSecurity/GetRequestMetadata call counters are > 0), or the grpc.Peer target was written, or the connection was TLS (so the TLS-info clause of the handler's peer applies); distinct by all case parameters.",
 		"clause_evaluations":          clauseCount,
 		"sequences":                   nSeq,
@@ -1676,15 +1902,31 @@ func main() {
 			"rule":                     "distinct (mode, steps) runs with a reused target set in which at least two calls got as far as knowing their peer (a response arrived or the in-process handler ran), i.e. the library wrote into a target that an earlier call had already written",
 			"oracle_calibration_cases": calibratedReuse,
 		},
-		"tls_info_connection_identity_compared": connCompared,
-		"samples":                               samples,
-		"exhaustive":                            true,
+		"option_suppliers": map[string]interface{}{
+			"configurations": len(viaShapesSeen),
+			"cases":          nVia,
+			"distinct_interceptor_option_reached_channel": len(viaReached),
+			"rule": "distinct cases in which an option ADDED BY AN INTERCEPTOR reached the mechanism: the interceptor's credential object was consulted (RequireTransportSecurity/GetRequestMetadata counters > 0) or the interceptor's peer.Peer was written",
+		},
+		"base_url_scheme": map[string]interface{}{
+			"alphabet":                          len(schemeAlphabet),
+			"cases":                             nScheme,
+			"distinct_security_decided":         len(schemeDecided),
+			"scheme_as_handed_to_round_tripper": schemeAsSent,
+			"rule":                              "distinct cases of the scheme grammar in which the credential's RequireTransportSecurity was called, i.e. the library decided whether that base URL may carry it; scheme_as_handed_to_round_tripper: per base-URL scheme the URL scheme of the requests the RoundTripper got in those cases",
+		},
+		"oracle_calibration_cases_suppliers_and_schemes": calibratedSupply,
+		"tls_info_connection_identity_compared":          connCompared,
+		"samples":                                        samples,
+		"exhaustive":                                     true,
 	}, []string{
 		"loopback TCP/TLS only where the real net/http + crypto/tls stack is the subject (reply.TLS, r.TLS, RemoteAddr); every case uses a fresh connection",
 		"in-process with credentials that require transport security: both refusing and accepting are taken as conforming (the statement only speaks about the HTTP base URL)",
 		"metadata merge is demanded as multiset inclusion per key (all caller values and all credential values present), order and extra keys free",
 		"metadata keys are case-insensitive (grpc-go lower-cases the keys of a credential's map and of the outgoing metadata; thorough runs the whole key-case grammar against grpc-go over bufconn and requires the oracle to accept it): the handler has to find the values under the lower-cased key however caller and credential spelled it",
 		"not in the grammar: a credential map that holds two spellings of the same key at once (grpc-go keeps only one of them); a caller metadata.MD literal with upper-case keys (grpc-go refuses the call: 'header key contains illegal characters') - the caller's spellings go through metadata.Pairs / AppendToOutgoingContext, which lower-case them in the grpc version the library is built with, so for the caller's side the spelling dimension exercises that package together with the library; the credential's map reaches the library as spelled",
+		"several grpc.PerRPCCredentials options in one call (caller and interceptors all passing one): the last of the list the channel is given is in effect, as in grpc-go (thorough runs the supplier grammar against grpc-go with the interceptors installed as dial options and requires the oracle to accept it); all credentials of one case have the same RequireTransportSecurity, so the refusal clause does not depend on which one is consulted; what becomes of the metadata of the credentials not in effect is free",
+		"base-URL scheme Https: refusing and carrying are both taken as conforming (see rule); HTTP, h2c, http+unix, ws and the empty scheme are 'not https' under every reading and must refuse credentials that require security, whatever the RoundTripper would do with the request",
 		"a credential whose GetRequestMetadata fails has to fail the call without the handler running (as grpc-go does); the error's type is not constrained",
 		"TLS info of a grpc.Peer target has to be that of the connection the call used: keying material exported (RFC 5705/8446 exporter, fixed label) from the target's tls.ConnectionState equals what the HTTP server exports for the connection the request arrived on; every call uses a connection (and handshake) of its own, so the TLS info of any earlier call, also one to the same server, is told apart; compared whenever both ends yield an exporter value (count in tls_info_connection_identity_compared)",
 		"a cleartext connection must not be reported with TLS info (the converse of 'TLS authentication info whenever the connection uses TLS'); other auth info on a cleartext or in-process call (grpc-go's insecure credentials report AuthType \"insecure\", the in-process channel reports \"inproc\") is accepted as long as a target that was used before ends up with the same as a zero target handed to the same call",
